@@ -1,11 +1,114 @@
-(* C09 — property theorems only: pinned statement, `exact`, Print Assumptions. *)
+(* C09 — property theorems only: pinned statement, `exact`, Print Assumptions.
+   Model: Model/Pattern.v (parser.rs + mod.rs step by step).  Spec side:
+   Proofs/PatternSpec.v — the AST of the documented grammar, its printer
+   `print_seq`, well-formedness `wf_seq` (strict = outside the look-ahead
+   finding class), `sem_ok` (known formatter, right arguments, min <= max) and
+   the `meaning` of a pattern for a record. *)
 From Coq Require Import String Ascii.
 From Coq Require Import List NArith Bool.
 Import ListNotations.
-From L4 Require Import Model.Pattern Proofs.PatternSpec Proofs.Pattern.
+From L4 Require Import Model.Pattern Proofs.PatternSpec Proofs.Pattern Proofs.PatternMeaning
+     Proofs.PatternParse Proofs.PatternTheorems.
 Local Open Scope N_scope.
 
-Theorem C09_error_chunk_renders :
-  forall ok ts e m, enc_chunk ok ts e (CError m) = chars (lit "{ERROR: " ++ m ++ lit "}").
-Proof. exact error_chunk_renders. Qed.
-Print Assumptions C09_error_chunk_renders.
+(* The parser inverts the printer: for every well-formed AST (any nesting depth,
+   any aliases, both escape styles, any spec) the pieces parsed from its text
+   are exactly the pieces it denotes - nothing added, dropped or reordered. *)
+Theorem C09_parse_print_roundtrip :
+  forall (al an : N -> bool), oracle_ok al an ->
+  forall seq, wf_seq al an true false seq = true ->
+              parse al an (print_seq seq) = Ok (map piece_of seq).
+Proof. exact parse_print_roundtrip. Qed.
+Print Assumptions C09_parse_print_roundtrip.
+
+(* Encoding the denoted pieces gives the meaning: every formatter's value for
+   the record (??? for absent fields, MDC value or default, date in format and
+   zone, profile-dependent groups, highlight styling), fitted to its spec. *)
+Theorem C09_pieces_encode_to_meaning :
+  forall ok ts e seq,
+    forallb (sem_ok ok) seq = true ->
+    encode ok ts e (map (compile ok) (map piece_of seq)) = meaning_seq ts e seq.
+Proof. exact encode_seq_is_meaning. Qed.
+Print Assumptions C09_pieces_encode_to_meaning.
+
+(* The headline: PatternEncoder::new(text of a well-formed pattern) followed by
+   encode produces exactly the meaning of the pattern, for every record. *)
+Theorem C09_encode_is_meaning :
+  forall (al an : N -> bool), oracle_ok al an ->
+  forall ok ts e seq,
+    wf_seq al an true false seq = true ->
+    forallb (sem_ok ok) seq = true ->
+    exists cs, construct al an ok (print_seq seq) = Ok cs
+               /\ encode ok ts e cs = meaning_seq ts e seq.
+Proof. exact encode_is_meaning. Qed.
+Print Assumptions C09_encode_is_meaning.
+
+(* The six writer compositions of Chunk::encode are C10's law (cut to max
+   characters, then pad to min) whenever min <= max. *)
+Theorem C09_writer_composition_is_fit :
+  forall p l,
+    match p_min p, p_max p with Some m, Some M => m <= M | _, _ => True end ->
+    apply_params p l = fit p l.
+Proof. exact fit_eq. Qed.
+Print Assumptions C09_writer_composition_is_fit.
+
+(* Highlight groups add styling without changing the text: erasing the
+   set_style calls from the output of any compiled pattern gives exactly the
+   output of the same pattern with every highlight group made a plain group. *)
+Theorem C09_highlight_text_invariant :
+  forall ok ts e c, strip (enc_chunk ok ts e c) = enc_chunk ok ts e (unhl_chunk c).
+Proof. exact highlight_text_invariant. Qed.
+Print Assumptions C09_highlight_text_invariant.
+
+(* Open finding F-C09-empty-spec-lookahead: `{m:}<` is grammatical (wf without
+   the strictness condition) but its output is not its meaning. *)
+Theorem C09_lookahead_refuted :
+  wf_seq a_alpha a_alnum false false w_lookahead = true /\
+  wf_seq a_alpha a_alnum true false w_lookahead = false /\
+  forallb (sem_ok w_ok) w_lookahead = true /\
+  exists cs, construct a_alpha a_alnum w_ok (print_seq w_lookahead) = Ok cs
+             /\ encode w_ok w_ts w_env cs <> meaning_seq w_ts w_env w_lookahead.
+Proof. exact lookahead_refuted. Qed.
+Print Assumptions C09_lookahead_refuted.
+
+(* Open finding F-C09-mdc-first-piece: `{X(a{{b)}` looks up key `a`. *)
+Theorem C09_mdc_first_piece_refuted :
+  wf_seq a_alpha a_alnum true false w_mdc = true /\
+  forallb (sem_ok_mod_class w_ok) w_mdc = true /\
+  existsb in_known_class w_mdc = true /\
+  exists cs, construct a_alpha a_alnum w_ok (print_seq w_mdc) = Ok cs
+             /\ encode w_ok w_ts w_env cs <> meaning_seq w_ts w_env w_mdc.
+Proof. exact mdc_first_piece_refuted. Qed.
+Print Assumptions C09_mdc_first_piece_refuted.
+
+(* ---------- non-vacuity ---------- *)
+
+(* `\{{h({l:>7} {m:.3})}}} {date(%Y\(x)(utc)} {X(k)(none):~<9.9}|{({M}:{L}):12}` *)
+Definition ex_seq : list ast :=
+  [AEsc 123 Backslash;
+   AFmt (LIT "h") [[AFmt (LIT "l") [] (mkSpec true (Some (None, ARight)) (Some (LIT "7")) None);
+                    ALit (LIT " ");
+                    AFmt (LIT "m") [] (mkSpec true None None (Some (LIT "3")))]] no_spec;
+   AEsc 125 Doubled; ALit (LIT " ");
+   AFmt (LIT "date") [[ALit (LIT "%Y"); AEsc 40 Backslash; ALit (LIT "x")]; [ALit (LIT "utc")]] no_spec;
+   ALit (LIT " ");
+   AFmt (LIT "X") [[ALit (LIT "k")]; [ALit (LIT "none")]]
+        (mkSpec true (Some (Some 126, ALeft)) (Some (LIT "9")) (Some (LIT "9")));
+   ALit (LIT "|");
+   AFmt [] [[AFmt (LIT "M") [] no_spec; ALit (LIT ":"); AFmt (LIT "L") [] no_spec]]
+        (mkSpec true None (Some (LIT "12")) None)].
+
+Example C09_ex_wellformed :
+  oracle_ok a_alpha a_alnum /\
+  wf_seq a_alpha a_alnum true false ex_seq = true /\
+  forallb (sem_ok w_ok) ex_seq = true /\
+  print_seq ex_seq
+  = LIT "\{{h({l:>7} {m:.3})}}} {date(%Y\(x)(utc)} {X(k)(none):~<9.9}|{({M}:{L}):12}".
+Proof. split; [exact a_oracle_ok|]. repeat split; vm_compute; reflexivity. Qed.
+
+Example C09_ex_output :
+  exists cs, construct a_alpha a_alnum w_ok (print_seq ex_seq) = Ok cs /\
+    encode w_ok w_ts w_env cs
+    = [Ch 123; St 3] ++ chars (LIT "   INFO hel") ++ [St 0]
+      ++ chars (LIT "} U none~~~~~|???:???     ").
+Proof. eexists; split; vm_compute; reflexivity. Qed.
